@@ -8,7 +8,8 @@
    Also followed: 0ac2234 (every single-field setter stages its write and publishes), e4278d0
    (issuance, reissuance and issuance blinding refuse a finalized input), cc83b33 (New validates
    its arguments; the tapscript-signature and tap-derivation setters apply the parser's checks),
-   7d6e201 (Input.GetUtxo no longer writes), 2b1b006 (empty derivation paths parse).
+   7d6e201 (Input.GetUtxo no longer writes), 2b1b006 (empty derivation paths parse), a3c85bd (the
+   blinder refuses commitments the parser would refuse).
    Only Finalize / MaybeFinalize / MaybeFinalizeAll still work on the live packet.
 
    The state is abstract: it carries exactly what C11 talks about (declared counts, the list
@@ -724,6 +725,7 @@ Fixpoint outargs_validate (p : pset) (last : bool) (l : list (N * N)) : bool :=
          | Some o =>
            if negb (needs_blinding_o o) then false
            else if cls =? 1 then false
+           else if cls =? 3 then false       (* a nonce commitment that is not a curve point (fix a3c85bd) *)
            else if (cls =? 2) && negb is_last_output then false
            else outargs_validate p last l'
          end
@@ -771,10 +773,9 @@ Definition do_blind (p : pset) (a : blind_args) : (list aux * list outp * list N
     else if existsb (fun x => (Z.of_N (g_nin p) - 1 <? Z.of_N (fst x))%Z
                               || match nth_error auxs (N.to_nat (fst x)) with
                                  | Some ax => finalized ax
-                                              (* class 2: a 5-byte value commitment; its length is only looked at when
-                                                 the input has an issuance value *)
-                                              || ((snd x =? 2) && (0 <? a_issval ax))
-                                 | None => false end)
+                                 | None => false end
+                              (* class 2: a 5-byte value commitment, refused whatever the amounts are (fix a3c85bd) *)
+                              || (snd x =? 2))
                     (bl_iss a) then stop auxs Err
     else
       let outs_sorted := sort_by_idx (bl_outs a) in
